@@ -384,6 +384,11 @@ HexStr(start, cs) ==
        IN /\ mem' = r[3] /\ UNCHANGED <<d, inited, touched>>
           /\ One("hexstr", <<start, Len(cs)>> \o cs, <<r[1], r[2]>> \o Image(r[3]))
 
+(* composition X04: an area whose storage is a checksummed persistent-storage instance (area kind 2). The table
+   semantics are unchanged; whatever the table did, a fresh persistent instance on the medium validates, no medium
+   access left the medium and the guard octets around the region are intact *)
+PValidate == UNCHANGED vars /\ One("pvalidate", <<>>, <<0, 0, 0>>)
+
 (* environment: out-of-band alteration of one mapped word *)
 Corrupt(addr, w) == /\ inited /\ Mapped(d, addr) /\ mem' = SetWord(d, mem, addr, w) /\ UNCHANGED <<d, inited, touched>>
                     /\ One("corrupt", <<addr, w>>, <<OK>> \o Image(mem'))
